@@ -2,6 +2,9 @@
 import json, os, subprocess, sys, time, hashlib, re
 from concurrent.futures import ThreadPoolExecutor
 
+# the thorough tier multiplies every suite's scenario count by this factor (VERIF_THOROUGH_SCALE to override)
+THOROUGH_SCALE = int(__import__('os').environ.get('VERIF_THOROUGH_SCALE', '5'))
+
 ROOT = os.path.dirname(os.path.dirname(os.path.abspath(__file__)))
 LEAN = os.path.join(ROOT, "lean")
 HARNESS = os.path.join(ROOT, "harness")
@@ -56,36 +59,90 @@ def chunks(lst, n):
     return [c for c in out if c]
 
 
-def run_pair(sub, scenarios, jobs=None, extra_driver_args=(), extra_vh_args=(), timeout=3600):
+STALL_S = int(os.environ.get("VERIF_STALL_S", "90"))
+
+
+def run_blocks(cmd, blocks, stall):
+    """Feed scenario blocks ('begin <id> ... end') to a line-protocol process and collect its output per block.
+    A watchdog kills the process when it produces no output line for `stall` seconds; the block it was working
+    on is reported as timed out ([`<who>-timeout`] as its output) and the remaining blocks are run in a fresh process.
+    Returns (dict id -> lines, returncode, stderr tail)."""
+    import threading, queue
+    out, todo = {}, list(blocks)
+    while todo:
+        names = [b.split("\n", 1)[0].split()[1] for b in todo]
+        p = subprocess.Popen(cmd, stdin=subprocess.PIPE, stdout=subprocess.PIPE, stderr=subprocess.PIPE, text=True, env=ENV)
+        q = queue.Queue()
+
+        def feed(p=p, text="".join(todo)):
+            try:
+                p.stdin.write(text); p.stdin.close()
+            except Exception:
+                pass
+
+        def read(p=p, q=q):
+            for line in p.stdout:
+                q.put(line)
+            q.put(None)
+
+        err = []
+        threading.Thread(target=feed, daemon=True).start()
+        threading.Thread(target=read, daemon=True).start()
+        threading.Thread(target=lambda p=p: err.append(p.stderr.read()), daemon=True).start()
+        text, stalled = [], False
+        while True:
+            try:
+                line = q.get(timeout=stall)
+            except queue.Empty:
+                stalled = True
+                p.kill()
+                break
+            if line is None:
+                break
+            text.append(line)
+        p.wait()
+        got = split_blocks("".join(text))
+        out.update(got)
+        if not stalled:
+            if p.returncode != 0:
+                return out, p.returncode, ("".join(err))[-4000:] + "".join(text)[-2000:]
+            break
+        culprit = next((n for n in names if n not in got), None)
+        if culprit is None:
+            break
+        out[culprit] = [f"{os.path.basename(cmd[0])}-timeout"]
+        todo = todo[names.index(culprit) + 1:]
+    return out, 0, ""
+
+
+def run_pair(sub, scenarios, jobs=None, extra_driver_args=(), extra_vh_args=(), timeout=3600, stall=None):
     """Run scenario texts (each a block 'begin <id> ... end') through the real code (vh) and the
-    Lean driver in parallel chunks.  Returns (impl_blocks, model_blocks): dict id -> list of lines."""
+    Lean driver in parallel chunks.  Returns (impl_blocks, model_blocks): dict id -> list of lines.
+    Neither side can hang the check: see `run_blocks`."""
     jobs = jobs or JOBS
+    stall = stall or STALL_S
     parts = chunks(scenarios, jobs)
 
     def one(part):
-        text = "".join(part)
-        a = subprocess.run([VH, sub, *extra_vh_args], input=text, capture_output=True, text=True, env=ENV,
-                           timeout=timeout)
-        # scenarios the implementation aborted for size (`result=capped`) are not sent to the model
-        ia = split_blocks(a.stdout) if a.returncode == 0 else {}
+        ia, rc, errtxt = run_blocks([VH, sub, *extra_vh_args], part, stall)
+        if rc != 0:
+            raise BuildError(f"vh {sub} exited with {rc}", errtxt)
+        # scenarios the implementation aborted for size (`result=capped`) or did not finish are not sent to the model
         keep = []
         for blk in part:
             nm = blk.split("\n", 1)[0].split()[1]
-            if not any("result=capped" in l for l in ia.get(nm, [])):
+            if not any("result=capped" in l or l.endswith("-timeout") for l in ia.get(nm, [])):
                 keep.append(blk)
-        b = subprocess.run([DRIVER, sub, *extra_driver_args], input="".join(keep), capture_output=True, text=True,
-                           env=ENV, timeout=timeout)
-        return a, b
+        ib, rc, errtxt = run_blocks([DRIVER, sub, *extra_driver_args], keep, stall)
+        if rc != 0:
+            raise BuildError(f"asdriver {sub} exited with {rc}", errtxt)
+        return ia, ib
 
     impl, model = {}, {}
     with ThreadPoolExecutor(max_workers=jobs) as ex:
         for a, b in ex.map(one, parts):
-            if a.returncode != 0:
-                raise BuildError(f"vh {sub} exited with {a.returncode}", a.stderr[-4000:] + a.stdout[-2000:])
-            if b.returncode != 0:
-                raise BuildError(f"asdriver {sub} exited with {b.returncode}", b.stderr[-4000:] + b.stdout[-2000:])
-            impl.update(split_blocks(a.stdout))
-            model.update(split_blocks(b.stdout))
+            impl.update(a)
+            model.update(b)
     return impl, model
 
 
